@@ -224,6 +224,10 @@ def _diff(k, ref, want_private):
     return bad
 
 
+def _spec_key(spec):
+    return hashlib.sha256(repr(sorted((k, str(v)) for k, v in spec.items())).encode()).hexdigest()[:16]
+
+
 class _Devs(object):
     def __init__(self):
         self.devs = []
@@ -416,8 +420,7 @@ def sub_paths(case):
                     got, e = _call(lambda: root.subkey_for_path('m/' + path))
                     _judge_public(D, 'subkey_for_path(public)', root_ref, ref, [], elems, got, e,
                                   dict(detail, split=0, via='imported xpub, m/ spelling'))
-    key = '%s|%s|%s|%s|%d|%s' % (root_spec['seed'][:16] + str(len(root_spec['seed'])), root_spec.get('at'),
-                                 root_spec['import'], '/'.join(prefix), k, case['alpha'])
+    key = '%s|%s|%d|%s|%s' % (_spec_key(root_spec), '/'.join(prefix), k, case['alpha'], bool(case.get('only_full')))
     return {'devs': D.devs, 'n': D.n, 'nt': ['%s#%d' % (key, i) for i in range(D.nt)], 'out': D.out}
 
 
@@ -490,7 +493,7 @@ def sub_api(case):
             D.dev('child_private|public_parent_returned_a_key', {'root': root_spec, 'index': idx})
         else:
             D.label('private_from_public_refused')
-    key = '%s|%s|%s' % (root_spec['seed'][:16] + str(len(root_spec['seed'])), root_spec['import'], '/'.join(case['parent']))
+    key = '%s|%s' % (_spec_key(root_spec), '/'.join(case['parent']))
     return {'devs': D.devs, 'n': D.n, 'nt': ['%s#%d' % (key, i) for i in range(D.nt)], 'out': D.out}
 
 
@@ -515,7 +518,7 @@ def sub_master(case):
             if e is not None:
                 D.dev('import[%s]|raises|%s' % (how, type(e).__name__), {'seed': sh, 'exc': repr(e)[:200]})
                 continue
-            nt.append('%s%d|%s' % (sh[:16], len(sh), how))
+            nt.append('%s|%s' % (hashlib.sha256(seed).hexdigest()[:16], how))
             bad = _diff(k, want, not how.startswith('xpub'))
             if not bad:
                 D.label('master_ok')
@@ -594,7 +597,6 @@ def run(ctx):
     tree(v2, 'semh', 3 if q else 4)
     if not q:
         tree(v3, 'sem', 4)
-        tree({'seed': seeds[0], 'import': 'seed_bytes'}, 'semh', 4)
     # ... and on every other root: all seeds, every import route, imported extended keys below the master
     roots = []
     picks = seeds if not q else [s for i, s in enumerate(seeds) if i % 2 == 0 or s in VEC_SEEDS]
@@ -605,7 +607,7 @@ def run(ctx):
             for how in ('xprv', 'xpub', 'xpub_from_wif') if not q else ('xprv', 'xpub'):
                 roots.append({'seed': s, 'at': at, 'import': how})
     for i, r in enumerate(roots):
-        tree(r, 'sem' if i % 2 == 0 else 'semh', 2 if q else 3)
+        tree(r, 'sem' if i % 2 == 0 else 'semh', 2 if q or i % 3 else 3)
     # deep paths: every split point of every full-length path
     deep = []
     for r in (v1,) if q else (v1, v3):
@@ -630,9 +632,9 @@ def run(ctx):
                 ac.append({'root': {'seed': s, 'import': 'seed_bytes'}, 'parent': parent})
         ctx.pmap('api', ac, chunk=1)
     ctx.note('bounds', {'seeds': len(seeds), 'seed_lengths': sorted(set(len(s) // 2 for s in seeds)),
-                        'roots_semantic_alphabet': len(roots) + (2 if q else 4), 'depth_all_spellings': 2 if q else 3,
+                        'roots_semantic_alphabet': len(roots) + (2 if q else 3), 'depth_all_spellings': 2 if q else 3,
                         'depth_semantic_alphabet': '%d on %d roots, %d on all roots' % (
-                            (3, 2, 2) if q else (4, 4, 3)),
+                            (3, 2, 2) if q else (4, 3, 2)) + ('' if q else ', 3 on every third root'),
                         'deep_paths': 'depth 8 over %s' % (_alphabet('deep2') if q else str(_alphabet('deep3')) +
                                                            ' and depth 10 over ' + str(_alphabet('deep2'))),
                         'alphabet_full': _alphabet('full'), 'alphabet_semantic': _alphabet('sem'),
